@@ -76,7 +76,8 @@ theorem peek_parse_safe (hrd : RdataSafe) (r : Reader) (hsz : r.octets.size < 2^
     (∀ rr r', p.parse rdRead = (.ok rr, r') →
       r' = { r with cursor := p.rrEnd } ∧ rr.rrType = be16 r.octets p.ownerEnd ∧
       (∃ n, parseCompressed r.octets r.cursor = .ok n ∧ rr.owner = n.wire) ∧
-      rdRead rr.cls rr.rrType r.octets (p.ownerEnd + 10) (be16 r.octets (p.ownerEnd + 8)) = .ok rr.rdata) := by
+      rdRead rr.cls rr.rrType r.octets (p.ownerEnd + 10) (be16 r.octets (p.ownerEnd + 8)) = .ok rr.rdata ∧
+      rr.cls = be16 r.octets (p.ownerEnd + 2)) := by
   obtain ⟨hr0, a1, a2, a3, a4, a5, a6, a7⟩ := C15.C15_peek_accessors r p h
   rw [peek_parse_eq rdRead r p h]
   cases hp : parseCompressed r.octets r.cursor with
@@ -93,7 +94,7 @@ theorem peek_parse_safe (hrd : RdataSafe) (r : Reader) (hsz : r.octets.size < 2^
       refine ⟨by simp, fun rr r' hh => ?_⟩
       simp only [Prod.mk.injEq, Out.ok.injEq] at hh
       obtain ⟨rfl, rfl⟩ := hh
-      exact ⟨rfl, rfl, ⟨n, rfl, rfl⟩, h5⟩
+      exact ⟨rfl, rfl, ⟨n, rfl, rfl⟩, h5, rfl⟩
 
 
 
